@@ -567,7 +567,8 @@ class LowRankRootAddedDiag(Composite):
         s = _base(self.name, "pd", n, m, batch, dtype, rng)
         s["children"] = [
             _gen(rng, "psd", n, n, batch, 1, dtype, allow=["LowRankRoot"]),
-            _diag_child(rng, n, batch, dtype),
+            # (an IdentityLinearOperator among the diagonals: its inverse / products are the argument itself)
+            _diag_child(rng, n, batch, dtype, classes=("Diag", "ConstantDiag", "Diag", "ConstantDiag", "Identity")),
         ]
         return s
 
@@ -739,7 +740,7 @@ class AddedDiag(Composite):
         ck = "psd" if k == "pd" else k
         s["children"] = [
             _gen(rng, ck, n, n, sub_batches(batch, rng), depth - 1, dtype, deny=["Diag", "ConstantDiag", "Identity", "Zero", "KronDiag"]),
-            _diag_child(rng, n, batch, dtype),
+            _diag_child(rng, n, batch, dtype, classes=("Diag", "ConstantDiag", "Diag", "ConstantDiag", "Identity")),
         ]
         return s
 
